@@ -260,6 +260,9 @@ func (x *tr) coqType(t types.Type) string {
 			if k == "Z" && v != "?" {
 				return "map " + paren(v) // association list keyed by Z; a receiver field is a gomap (nil-able)
 			}
+			if k == "bytes" && v != "?" {
+				return "mapB " + paren(v) // .. keyed by a string; a receiver field is a gomapB
+			}
 		}
 	}
 	return "?"
@@ -650,7 +653,7 @@ func (x *tr) nilTestOf(kind string, n ast.Node) string {
 		switch {
 		case kind == "error":
 			return "err_is_nil"
-		case strings.HasPrefix(kind, "option "), strings.HasPrefix(kind, "gomap "):
+		case strings.HasPrefix(kind, "option "), strings.HasPrefix(kind, "gomap "), strings.HasPrefix(kind, "gomapB "):
 			return "is_nil"
 		}
 		x.bad(n, "nil test on a value whose translation does not distinguish nil ("+kind+")")
@@ -675,10 +678,10 @@ func (x *tr) nilOf(kind string, n ast.Node) string {
 // fieldKind: the Coq type of a selector expression on the receiver (maps are nil-able gomaps there)
 func (x *tr) exprKind(e ast.Expr) string {
 	k := x.kindOf(e)
-	if strings.HasPrefix(k, "map ") {
+	if strings.HasPrefix(k, "map ") || strings.HasPrefix(k, "mapB ") {
 		if se, ok := e.(*ast.SelectorExpr); ok {
 			if id, ok := se.X.(*ast.Ident); ok && id.Name == x.recv {
-				return "gomap " + k[4:]
+				return "go" + k
 			}
 		}
 	}
@@ -906,6 +909,13 @@ func (x *tr) expr(e ast.Expr) string {
 			return x.partial("str_slice " + paren(x.expr(z.X)) + " " + paren(x.expr(z.Low)) + " " + paren(x.expr(z.High)))
 		}
 	case *ast.IndexExpr:
+		if x.t.strict && strings.HasPrefix(x.kindOf(z.X), "list ") && x.kindOf(z.Index) == "Z" {
+			return x.partial("list_at " + paren(x.expr(z.X)) + " " + paren(x.expr(z.Index))) // panics outside 0..len-1
+		}
+		if mk := x.exprKind(z.X); x.t.strict && strings.HasPrefix(mk, "gomapB ") && x.kindOf(z.Index) == "bytes" {
+			// m[k] as a value: the zero value when k is missing (or the map nil)
+			return "(mapB_get_or " + x.expr(z.X) + " " + paren(x.expr(z.Index)) + " " + x.zeroOfKind(mk[7:], z) + ")"
+		}
 		if x.t.strict && x.kindOf(z.X) == "gslice" && x.kindOf(z.Index) == "Z" {
 			return x.partial("sl_at " + paren(x.expr(z.X)) + " " + paren(x.expr(z.Index)))
 		}
@@ -1001,6 +1011,14 @@ func (x *tr) expr(e ast.Expr) string {
 			case "strings.ToLower":
 				if len(z.Args) == 1 {
 					return "(to_lower " + x.expr(z.Args[0]) + ")"
+				}
+			case "make":
+				if _, isMap := x.p.TypesInfo.TypeOf(z).Underlying().(*types.Map); isMap && len(z.Args) == 1 {
+					if k := x.kindOf(z); strings.HasPrefix(k, "map ") {
+						return "(Some (@nil (Z * " + paren(k[4:]) + ")))" // a map value is never nil again; only a field can take it
+					} else if strings.HasPrefix(k, "mapB ") {
+						return "(Some (@nil (bytes * " + paren(k[5:]) + ")))"
+					}
 				}
 			case "copy":
 				return x.copyCall(z)
@@ -1203,6 +1221,8 @@ func (x *tr) zeroOfKind(k string, n ast.Node) string {
 		return "(@None " + paren(k[7:]) + ")"
 	case strings.HasPrefix(k, "gomap "):
 		return "(@None (list (Z * " + paren(k[6:]) + ")))"
+	case strings.HasPrefix(k, "gomapB "):
+		return "(@None (list (bytes * " + paren(k[7:]) + ")))"
 	}
 	x.bad(n, "zero value of a type outside the fragment ("+k+")")
 	return ""
@@ -1806,8 +1826,11 @@ func (x *tr) seq(stmts []ast.Stmt, k func() string) string {
 				if ix, ok := as.Rhs[0].(*ast.IndexExpr); ok {
 					return x.lookupIf(z, as, ix, rest, k)
 				}
-				if ta, ok := as.Rhs[0].(*ast.TypeAssertExpr); ok && x.t.strict {
-					return x.assertIf(z, as, ta, rest, k)
+				if ta, ok := as.Rhs[0].(*ast.TypeAssertExpr); ok && x.t.strict && as.Tok == token.DEFINE {
+					okn := src(as.Lhs[1])
+					if c := src(z.Cond); c == okn || c == "!"+okn {
+						return x.assertIf(z, as, ta, rest, k)
+					}
 				}
 			}
 			if x.t.strict {
@@ -1954,6 +1977,36 @@ func (x *tr) assignStrict(z *ast.AssignStmt, tail func() string) string {
 			}
 		}
 	}
+	if ta, ok := z.Rhs[0].(*ast.TypeAssertExpr); ok && len(z.Rhs) == 1 && len(z.Lhs) == 2 && ta.Type != nil &&
+		(z.Tok == token.ASSIGN || z.Tok == token.DEFINE) {
+		// v, ok = e.(T): the asserted value and true, or the zero value of T and false
+		st := types.TypeString(x.p.TypesInfo.TypeOf(ta.X), x.qual)
+		tt := types.TypeString(x.p.TypesInfo.TypeOf(ta.Type), x.qual)
+		tk := x.coqType(x.p.TypesInfo.TypeOf(ta.Type))
+		if tk == "?" || x.coqType(x.p.TypesInfo.TypeOf(ta.X)) == "?" {
+			x.bad(z, "type assertion between types the target does not map")
+		}
+		fn := x.use("as_" + sanitize(strings.TrimPrefix(tt, "*")) + "_of_" + sanitize(strings.TrimPrefix(st, "*")))
+		mark := len(x.pending)
+		e := x.expr(ta.X)
+		var names []string
+		for _, l := range z.Lhs {
+			if id, isId := l.(*ast.Ident); isId && id.Name == "_" {
+				names = append(names, "_")
+				continue
+			}
+			nm, _ := x.lhsName(l)
+			if z.Tok == token.ASSIGN {
+				x.use(nm)
+			}
+			x.stateWrite(l, nm)
+			names = append(names, nm)
+		}
+		zero := x.zeroOfKind(tk, z)
+		return x.hoistStmt(mark, func() string {
+			return x.letTuple(names, fmt.Sprintf("match %s %s with Some v_ => (v_, true) | None => (%s, false) end", fn, paren(e), zero), tail)
+		})
+	}
 	if len(z.Lhs) != len(z.Rhs) {
 		x.bad(z, "assignment form")
 	}
@@ -1986,6 +2039,15 @@ func (x *tr) assignStrict(z *ast.AssignStmt, tail func() string) string {
 					continue
 				}
 			}
+			// s.m[k] = v on a map field of the receiver that the target hands back: panics when the map is nil
+			if mk := x.exprKind(ie.X); strings.HasPrefix(mk, "gomapB ") && x.kindOf(ie.Index) == "bytes" {
+				nm, _ := x.lhsName(ie.X)
+				x.use(nm)
+				x.stateWrite(ie.X, nm)
+				names = append(names, nm)
+				vals = append(vals, x.partial(fmt.Sprintf("gomapB_set %s %s %s", nm, paren(x.expr(ie.Index)), paren(x.expr(z.Rhs[i])))))
+				continue
+			}
 			// m[i][k] = v on a package-level map of maps: panics when the row m[i] is missing (a nil map)
 			if inner, ok := ie.X.(*ast.IndexExpr); ok {
 				if name := x.pkgVar(inner.X); name != "" && x.kindOf(inner.Index) == "Z" && x.kindOf(ie.Index) == "Z" {
@@ -2012,7 +2074,7 @@ func (x *tr) assignStrict(z *ast.AssignStmt, tail func() string) string {
 		} else {
 			rhs = x.expr(z.Rhs[i])
 		}
-		if lk == "?" || (lk != rk && !(strings.HasPrefix(lk, "gomap ") && strings.HasPrefix(rk, "map "))) {
+		if lk == "?" || (lk != rk && !(strings.HasPrefix(lk, "gomap") && "go"+rk == lk)) {
 			x.bad(z, "assignment between different translated types ("+lk+" := "+rk+")")
 		}
 		switch z.Tok {
@@ -2110,6 +2172,8 @@ func (x *tr) lookupIf(z *ast.IfStmt, as *ast.AssignStmt, ix *ast.IndexExpr, rest
 		case pkgTable:
 		case strings.HasPrefix(mk, "gomap "):
 			look, m = "map_get", x.expr(ix.X)
+		case strings.HasPrefix(mk, "gomapB "):
+			look, m = "mapB_get", x.expr(ix.X)
 		case strings.HasPrefix(mk, "map "):
 			if _, isId := ix.X.(*ast.Ident); !isId {
 				x.bad(z, "lookup in something that is not a map of the fragment")
@@ -2119,7 +2183,7 @@ func (x *tr) lookupIf(z *ast.IfStmt, as *ast.AssignStmt, ix *ast.IndexExpr, rest
 			x.bad(z, "lookup in something that is not a map of the fragment")
 		}
 	}
-	if x.kindOf(ix.Index) == "bytes" {
+	if x.kindOf(ix.Index) == "bytes" && look == "lookupZ" {
 		look = "lookupB"
 	}
 	key := x.expr(ix.Index)
